@@ -6,7 +6,7 @@ From BigNum Require Import Base BaseLemmas AddSub SpecAddSub AddSubProofs ShiftC
   BitsProofsI BitsProofsSNB BitDigits Iter Bytes SpecBytes BytesLemmas BytesProofs SignedBytesProofs
   Serde SerdeProofs Sign SpecSign SignProofs FormsAddSubLeaves
   Mul MulProofs PgrLoop PgrLoopProofs Pow SpecPow PowProofs Gcd SpecGcd GcdProofs GcdProofs2
-  Roots SpecRoots RootsMath RootsProofs Radix RadixText RadixKernels RadixApi SpecRadix RadixProofs RadixInst
+  Roots SpecRoots RootsMath RootsProofs Radix RadixText RadixKernels RadixApi SpecRadix RadixProofs RadixProofs3 RadixInst
   Hist SpecHist.
 Open Scope Z_scope.
 
@@ -52,6 +52,7 @@ Definition ctor_wf (c : ctor) : Prop :=
   | CUVec d | CIParts _ d | CIFromU d => wf d
   | CUNew w | CUSlice w | CUSerde w | CINew _ w | CISlice _ w | CISerde _ w => inb (2 ^ 32) w
   | CUBytesLe b | CUBytesBe b | CIBytesLe _ b | CIBytesBe _ b | CISignedLe b | CISignedBe b => inb 256 b
+  | CURadixLe b r | CURadixBe b r | CIRadixLe _ b r | CIRadixBe _ b r => inb r b /\ 2 <= r <= 256
   end.
 
 Lemma hist_ok_inv P : hist_ok P = true ->
@@ -341,8 +342,26 @@ Proof. destruct s; reflexivity. Qed.
 Lemma words_is_word w : inb (2 ^ 32) w -> forallb is_word w = true.
 Proof. intros H. change (forallb is_word w) with (forallb is_u32 w). apply is_u32_inb. exact H. Qed.
 
+Lemma radix_le_ok b r : inb r b -> 2 <= r <= 256 ->
+  bytes b /\ spec_from_radix_le b r = Ret (Some (le_value r b)).
+Proof.
+  intros Hb Hr. split.
+  - eapply Forall_impl; [|exact Hb]. cbn. intros; lia.
+  - unfold spec_from_radix_le, radix_in.
+    replace ((2 <=? r) && (r <=? 256)) with true by (symmetry; apply andb_true_intro; split; apply Z.leb_le; lia).
+    replace (forallb (fun d => d <? r) b) with true; [reflexivity|].
+    symmetry. apply forallb_forall. intros d Hd. apply Z.ltb_lt.
+    unfold inb in Hb. rewrite Forall_forall in Hb. apply Hb in Hd. lia.
+Qed.
+
+Section Construct.
+  Variable P : hist_params.
+  Hypothesis HP : hist_ok P = true.
+  Let Hradix : radix_std (hp_radix P) :=
+    radix_ok_inv _ (proj2 (proj2 (proj2 (proj2 (proj2 (proj2 (proj2 (hist_ok_inv P HP)))))))).
+
 Theorem construct_spec c : ctor_wf c ->
-  construct c = Ret (oenc (fst (sconstruct c)) (snd (sconstruct c))).
+  construct P c = Ret (oenc (fst (sconstruct c)) (snd (sconstruct c))).
 Proof.
   intros H. destruct c; cbn [ctor_wf] in H; cbn [construct sconstruct fst snd oenc].
   - unfold biguint_from_vec. rewrite enc_strip by auto. reflexivity.
@@ -361,7 +380,17 @@ Proof.
   - rewrite de_bigint_spec. unfold spec_ide, spec_de. rewrite ser_sign_ok, words_is_word by auto.
     cbn [option_map of_opt bind]. rewrite ser_sign_z. reflexivity.
   - unfold biguint_from_vec. rewrite ifrom_u_spec by (apply canon_strip; auto). rewrite val_strip. reflexivity.
+  - destruct H as [Hb Hr]. destruct (radix_le_ok b r Hb Hr) as [By E].
+    rewrite inst_from_radix_le by auto. rewrite E. reflexivity.
+  - destruct H as [Hb Hr]. destruct (radix_le_ok (rev b) r (inb_rev _ _ Hb) Hr) as [_ E].
+    rewrite inst_from_radix_be by (auto; apply (radix_le_ok b r Hb Hr)). unfold spec_from_radix_be. rewrite E. reflexivity.
+  - destruct H as [Hb Hr]. destruct (radix_le_ok b r Hb Hr) as [By E].
+    rewrite inst_ifrom_radix_le by auto. unfold spec_ifrom_radix_le. rewrite E. reflexivity.
+  - destruct H as [Hb Hr]. destruct (radix_le_ok (rev b) r (inb_rev _ _ Hb) Hr) as [_ E].
+    rewrite inst_ifrom_radix_be by (auto; apply (radix_le_ok b r Hb Hr)).
+    unfold spec_ifrom_radix_be, spec_ifrom_radix_le. rewrite E. reflexivity.
 Qed.
+End Construct.
 
 Lemma sconstruct_nonneg c : ctor_wf c -> fst (sconstruct c) = KU -> 0 <= snd (sconstruct c).
 Proof.
@@ -372,6 +401,8 @@ Proof.
   - apply (le_value_bound 256); [lia|auto].
   - apply (le_value_bound 256); [lia|apply inb_rev; auto].
   - apply (le_value_bound (2 ^ 32)); [lia|auto].
+  - apply (le_value_bound r); [lia|apply H].
+  - apply (le_value_bound r); [lia|apply inb_rev, H].
 Qed.
 
 (** * BigUint values never leave the naturals (so [enc] loses nothing) *)
@@ -490,7 +521,7 @@ Section Run.
   Theorem history_spec c ops : ctor_wf c -> Forall op_ok ops ->
     history P c ops = omap (oenc (fst (shistory c ops))) (snd (shistory c ops)).
   Proof.
-    intros Hc Hw. unfold history, start, shistory. rewrite construct_spec by auto.
+    intros Hc Hw. unfold history, start, shistory. rewrite (construct_spec P HP) by auto.
     destruct (sconstruct c) as [k v] eqn:E. cbn [fst snd bind].
     assert (Hn : k = KU -> 0 <= v).
     { intros K. pose proof (sconstruct_nonneg c Hc) as N. rewrite E in N. apply N. exact K. }
@@ -516,7 +547,7 @@ Section Run.
     history_trace P c ops =
     map (omap (oenc (fst (shistory_trace c ops)))) (snd (shistory_trace c ops)).
   Proof.
-    intros Hc Hw. unfold history_trace, start, shistory_trace. rewrite construct_spec by auto.
+    intros Hc Hw. unfold history_trace, start, shistory_trace. rewrite (construct_spec P HP) by auto.
     destruct (sconstruct c) as [k v] eqn:E. cbn [fst snd bind].
     assert (Hn : k = KU -> 0 <= v).
     { intros K. pose proof (sconstruct_nonneg c Hc) as N. rewrite E in N. apply N. exact K. }
@@ -538,15 +569,15 @@ Section Run.
       destruct (IH s1 s' C1 F1 Hr E) as (C & F & K). rewrite K1 in K. auto.
   Qed.
 
-  Theorem start_canon c s : ctor_wf c -> start c = Ret s -> ocanon s /\ fits s = true.
+  Theorem start_canon c s : ctor_wf c -> start P c = Ret s -> ocanon s /\ fits s = true.
   Proof.
-    intros Hc E. unfold start in E. rewrite construct_spec in E by auto. cbn [bind] in E.
+    intros Hc E. unfold start in E. rewrite (construct_spec P HP) in E by auto. cbn [bind] in E.
     unfold guard in E. destruct (fits _) eqn:F; [|discriminate]. injection E as <-.
     split; [apply ocanon_oenc|exact F].
   Qed.
 
   Theorem reachable_canon c ops s0 s : ctor_wf c -> Forall op_ok ops ->
-    start c = Ret s0 -> run P s0 ops = Ret s -> ocanon s.
+    start P c = Ret s0 -> run P s0 ops = Ret s -> ocanon s.
   Proof.
     intros Hc Hw E0 E. destruct (start_canon c s0 Hc E0) as [C0 F0].
     apply (run_canon ops s0 s C0 F0 Hw E).
@@ -769,7 +800,7 @@ Section Top.
 
   Theorem history_canon c ops s : ctor_wf c -> Forall op_ok ops -> history P c ops = Ret s -> ocanon s.
   Proof.
-    intros Hc Hw E. unfold history in E. destruct (start c) as [s0| |] eqn:E0; cbn [bind] in E; try discriminate.
+    intros Hc Hw E. unfold history in E. destruct (start P c) as [s0| |] eqn:E0; cbn [bind] in E; try discriminate.
     eapply reachable_canon; eauto.
   Qed.
 
